@@ -37,7 +37,7 @@ func (e *ArrayExp) formatNested(w stringWriter, prefix string, singleLine bool) 
 	}
 	p, isMro := w.(*printer)
 	if (singleLine || e.singleLineFormat()) && (!isMro ||
-		values[0].getNode() != nil && len(values[0].getNode().Comments) == 0) {
+		values[0].getNode() != nil && !values[0].getNode().hasComments()) {
 		// Place single-element arrays on a single line.
 		mustWriteRune(w, '[')
 		if inner, ok := values[0].(*ArrayExp); ok {
@@ -50,7 +50,7 @@ func (e *ArrayExp) formatNested(w stringWriter, prefix string, singleLine bool) 
 		mustWriteString(w, "[\n")
 		vindent := prefix + INDENT
 		for _, val := range values {
-			if n := val.getNode(); n != nil && len(n.Comments) > 0 && isMro {
+			if n := val.getNode(); n != nil && n.hasComments() && isMro {
 				p.printComments(n, vindent)
 			}
 			mustWriteString(w, vindent)
@@ -166,7 +166,7 @@ func (e *MapExp) format(w stringWriter, prefix string) {
 		for _, key := range keys {
 			v := e.Value[key]
 			if isMro && v != nil {
-				if n := v.getNode(); n != nil && len(n.Comments) > 0 {
+				if n := v.getNode(); n != nil && n.hasComments() {
 					p.printComments(n, vindent)
 				}
 			}
